@@ -5,30 +5,54 @@
    replies, error statuses, link drop).  Contents are abstract here (they live in the traces);
    addresses and lengths are integers, RC/WC are the chunk sizes (20/25 in the code).
 
-   Bug = "emptyQueueIndex" is the pre-fix _handle_chan_write: an acknowledgement for a memory
-   whose queue is empty (a duplicated final ack) indexes [0] while holding the lock.         *)
+   Environment (round 2):
+     * the device may answer with any status byte of ErrSts (the property quantifies over all
+       error statuses; the library must treat every non-zero byte alike);
+     * SendFail: the link may fail while the first message of a request is being sent -- the
+       driver reports the error from inside send_packet, the library tears the session down in
+       the calling thread before read()/write() returns;
+     * DeckMems: memories that are used through a DeckMemoryManager (deck_memory.py): one write
+       at a time ("Write operation ongoing"), always flush_queue, completion and failure are
+       handed on to the callbacks of that one write; a callback may start the next write.
+
+   Bug variants (each refuted by TLC under its MC_MemProto_bug*.cfg):
+     "emptyQueueIndex"     pre-fix _handle_chan_write: an acknowledgement for a memory whose queue
+                           is empty (a duplicated final ack) indexes [0] while holding the lock
+     "errnoLookup"         the error branch of the reply handlers looks the status byte up in a
+                           table of the host's errno codes (HostSts) before it pops the request:
+                           a status outside the table raises (swallowed by the dispatcher) -- the
+                           read record stays, the write lock is never released
+     "registerAfterSend"   Memory.read records the request only after its first message has been
+                           handed to the link: a reply handled, or a tear-down run, in between
+                           does not find it
+     "deckCallBeforeClear" DeckMemoryManager._write_failed calls the failure callback before it
+                           clears the pending-write callbacks: a write started from inside the
+                           callback is refused, its exception skips the clear for ever       *)
 EXTENDS Naturals, Sequences, FiniteSets, TLC
 
-CONSTANTS RC, WC, MaxLen, Mems, Addrs, NReq, NErr, NDup, MaxUid, Bug
+CONSTANTS RC, WC, MaxLen, Mems, Addrs, NReq, NErr, NDup, MaxUid, Bug,
+          ErrSts, HostSts, DeckMems, SendFail
 
 P == INSTANCE MemProtoProps
 
 Min(a, b) == IF a < b THEN a ELSE b
 NoRd == [rid |-> 0, cur |-> 0, left |-> 0]
 
-VARIABLES rd, wq, wkey, wlock,       \* Memory object
+VARIABLES rd, rpend, wq, wkey, wlock, \* Memory object (rpend: a read() call between send and record, bug variant only)
+          dk, dkcb,                  \* DeckMemoryManager: rid of the write whose callbacks it holds; failure callback running
           up, down, link,            \* wire: FIFO to the device, bag of replies in flight
           nreq, nerr, ndup, uid,
           req, chunks, notes, sup,   \* history
           wireW,                     \* history: order of write-chunk transmissions per memory
           dead                       \* the dispatcher's callback raised (traceback in the log)
 
-vars == <<rd, wq, wkey, wlock, up, down, link, nreq, nerr, ndup, uid, req, chunks, notes, sup, wireW, dead>>
+vars == <<rd, rpend, wq, wkey, wlock, dk, dkcb, up, down, link, nreq, nerr, ndup, uid, req, chunks, notes, sup, wireW, dead>>
 
-Init == /\ rd = [m \in Mems |-> NoRd]
+Init == /\ rd = [m \in Mems |-> NoRd] /\ rpend = [m \in Mems |-> NoRd]
         /\ wq = [m \in Mems |-> <<>>]
         /\ wkey = [m \in Mems |-> FALSE]
         /\ wlock = "free"
+        /\ dk = [m \in Mems |-> 0] /\ dkcb = [m \in Mems |-> FALSE]
         /\ up = <<>> /\ down = {} /\ link = TRUE
         /\ nreq = 0 /\ nerr = 0 /\ ndup = 0 /\ uid = 0
         /\ req = <<>> /\ chunks = <<>> /\ notes = <<>> /\ sup = {}
@@ -48,44 +72,110 @@ Chunk(msg) == chunks' = [chunks EXCEPT ![msg.rid] = Append(@, [addr |-> msg.addr
 NewReq(r) == /\ nreq' = nreq + 1
              /\ req' = Append(req, r)
 
-\* ---- Memory.read: refused while one is in flight for that memory
-URead(m, a, n) ==
-    /\ link /\ nreq < NReq
-    /\ IF rd[m] # NoRd
-       THEN /\ NewReq([kind |-> "read", m |-> m, addr |-> a, len |-> n, flush |-> FALSE, accepted |-> FALSE])
+NoCall == \A m \in Mems : rpend[m] = NoRd       \* no API call of the application is half-way
+NoCb   == \A m \in Mems : ~dkcb[m]              \* the dispatcher is not inside a deck failure callback
+SFs    == IF SendFail THEN BOOLEAN ELSE {FALSE}
+
+PendingRids == {rd[m].rid : m \in {x \in Mems : rd[x] # NoRd}}
+               \cup UNION {{wq[m][i].rid : i \in DOMAIN wq[m]} : m \in Mems}
+
+\* Memory._disconnected: every pending request (and `extra`: the request whose own send reported
+\* the failure, already registered) fails; all state is cleared, the deck manager object is dropped
+\* with the memory list (a new one is made by the next connection).  rd' is set by the caller.
+TearDown(ntab, extra) ==
+    /\ link' = FALSE
+    /\ notes' = [i \in DOMAIN ntab |-> IF i \in PendingRids \cup extra THEN Append(ntab[i], "fail") ELSE ntab[i]]
+    /\ wq' = [m \in Mems |-> <<>>] /\ wkey' = [m \in Mems |-> FALSE]
+    /\ dk' = [m \in Mems |-> 0] /\ dkcb' = [m \in Mems |-> FALSE]
+    /\ up' = <<>> /\ down' = {}
+
+\* ---- Memory.read: refused while one is in flight for that memory.  sf: the link fails while the
+\* first message is being sent (reported from inside send_packet)
+URead(m, a, n, sf) ==
+    /\ link /\ nreq < NReq /\ NoCall
+    /\ sf => rd[m] = NoRd
+    /\ LET rid == nreq + 1
+           r   == [rid |-> rid, cur |-> a, left |-> n]
+           msg == SendR(m, r)
+           R(acc) == [kind |-> "read", m |-> m, addr |-> a, len |-> n, flush |-> FALSE, accepted |-> acc]
+       IN
+       IF rd[m] # NoRd
+       THEN /\ NewReq(R(FALSE))
             /\ chunks' = Append(chunks, <<>>) /\ notes' = Append(notes, <<>>)
-            /\ UNCHANGED <<rd, up>>
-       ELSE LET r == [rid |-> nreq + 1, cur |-> a, left |-> n] msg == SendR(m, r) IN
-            /\ NewReq([kind |-> "read", m |-> m, addr |-> a, len |-> n, flush |-> FALSE, accepted |-> TRUE])
-            /\ rd' = [rd EXCEPT ![m] = r]
+            /\ UNCHANGED <<rd, rpend, wq, wkey, dk, dkcb, up, down, link>>
+       ELSE IF ~sf
+       THEN /\ NewReq(R(TRUE))
+            /\ IF Bug = "registerAfterSend"
+               THEN rpend' = [rpend EXCEPT ![m] = r] /\ UNCHANGED rd
+               ELSE rd' = [rd EXCEPT ![m] = r] /\ UNCHANGED rpend
             /\ up' = Append(up, msg)
             /\ chunks' = Append(chunks, <<[addr |-> msg.addr, len |-> msg.len]>>)
             /\ notes' = Append(notes, <<>>)
-    /\ UNCHANGED <<wq, wkey, wlock, down, link, nerr, ndup, uid, sup, wireW, dead>>
+            /\ UNCHANGED <<wq, wkey, dk, dkcb, down, link>>
+       ELSE \* the message never reaches the device; the tear-down runs inside the call
+            /\ NewReq(R(TRUE))
+            /\ chunks' = Append(chunks, <<>>)
+            /\ IF Bug = "registerAfterSend"
+               THEN /\ TearDown(Append(notes, <<>>), {})
+                    /\ rd' = [x \in Mems |-> IF x = m THEN r ELSE NoRd]     \* recorded after _clear_state
+               ELSE /\ TearDown(Append(notes, <<>>), {rid})
+                    /\ rd' = [x \in Mems |-> NoRd]
+            /\ UNCHANGED rpend
+    /\ UNCHANGED <<wlock, nerr, ndup, uid, sup, wireW, dead>>
 
-\* ---- Memory.write: the whole body runs under _write_requests_lock
-UWrite(m, a, n, f) ==
-    /\ link /\ nreq < NReq /\ wlock = "free"
-    /\ LET kept == IF f /\ Len(wq[m]) > 1 THEN <<wq[m][1]>> ELSE wq[m]
+\* (bug variant only) read() goes on after the send: now the request is recorded
+URegister(m) ==
+    /\ rpend[m] # NoRd
+    /\ rd' = [rd EXCEPT ![m] = rpend[m]]
+    /\ rpend' = [rpend EXCEPT ![m] = NoRd]
+    /\ UNCHANGED <<wq, wkey, wlock, dk, dkcb, up, down, link, nreq, nerr, ndup, uid, req, chunks, notes, sup, wireW, dead>>
+
+\* ---- Memory.write: the whole body runs under _write_requests_lock.  On a deck memory the call
+\* comes from DeckMemoryManager._write: refused (exception) while it holds the callbacks of a write
+UWrite(m, a, n, f, sf) ==
+    /\ link /\ nreq < NReq /\ wlock = "free" /\ NoCall
+    /\ m \in DeckMems => f
+    /\ LET rid  == nreq + 1
+           refused == m \in DeckMems /\ dk[m] # 0
+           kept == IF f /\ Len(wq[m]) > 1 THEN <<wq[m][1]>> ELSE wq[m]
            gone == {wq[m][i].rid : i \in (Len(kept) + 1)..Len(wq[m])}
-           w0   == [rid |-> nreq + 1, cur |-> a, rest |-> n, add |-> 0]
+           w0   == [rid |-> rid, cur |-> a, rest |-> n, add |-> 0]
            first == Len(kept) = 0
            msg  == SendW(m, w0)
-       IN /\ NewReq([kind |-> "write", m |-> m, addr |-> a, len |-> n, flush |-> f, accepted |-> TRUE])
-          /\ sup' = sup \cup gone
-          /\ wkey' = [wkey EXCEPT ![m] = TRUE]
-          /\ notes' = Append(notes, <<>>)
-          /\ IF first
-             THEN /\ wq' = [wq EXCEPT ![m] = <<Started(w0)>>]
-                  /\ up' = Append(up, msg)
-                  /\ chunks' = Append(chunks, <<[addr |-> msg.addr, len |-> msg.len]>>)
-                  /\ wireW' = [wireW EXCEPT ![m] = Append(@, w0.rid)]
-             ELSE /\ wq' = [wq EXCEPT ![m] = Append(kept, w0)]
+           R(acc) == [kind |-> "write", m |-> m, addr |-> a, len |-> n, flush |-> f, accepted |-> acc]
+       IN /\ sf => (first /\ ~refused)
+          /\ IF refused
+             THEN \* raised from inside the failure callback (bug variant) the exception also unwinds
+                  \* _write_failed: the late clear is skipped
+                  /\ NewReq(R(FALSE))
+                  /\ chunks' = Append(chunks, <<>>) /\ notes' = Append(notes, <<>>)
+                  /\ dkcb' = [dkcb EXCEPT ![m] = FALSE]
+                  /\ UNCHANGED <<rd, wq, wkey, dk, up, down, link, sup, wireW>>
+             ELSE IF ~sf
+             THEN /\ NewReq(R(TRUE))
+                  /\ sup' = sup \cup gone
+                  /\ wkey' = [wkey EXCEPT ![m] = TRUE]
+                  /\ dk' = IF m \in DeckMems THEN [dk EXCEPT ![m] = rid] ELSE dk
+                  /\ notes' = Append(notes, <<>>)
+                  /\ IF first
+                     THEN /\ wq' = [wq EXCEPT ![m] = <<Started(w0)>>]
+                          /\ up' = Append(up, msg)
+                          /\ chunks' = Append(chunks, <<[addr |-> msg.addr, len |-> msg.len]>>)
+                          /\ wireW' = [wireW EXCEPT ![m] = Append(@, w0.rid)]
+                     ELSE /\ wq' = [wq EXCEPT ![m] = Append(kept, w0)]
+                          /\ chunks' = Append(chunks, <<>>)
+                          /\ UNCHANGED <<up, wireW>>
+                  /\ UNCHANGED <<rd, dkcb, down, link>>
+             ELSE \* first message not delivered; the tear-down runs inside write() (the lock is
+                  \* re-entrant), this request is in the queue and fails with the others
+                  /\ NewReq(R(TRUE))
                   /\ chunks' = Append(chunks, <<>>)
-                  /\ UNCHANGED <<up, wireW>>
-    /\ UNCHANGED <<rd, wlock, down, link, nerr, ndup, uid, dead>>
+                  /\ TearDown(Append(notes, <<>>), {rid})
+                  /\ rd' = [x \in Mems |-> NoRd]
+                  /\ UNCHANGED <<sup, wireW>>
+    /\ UNCHANGED <<rpend, wlock, nerr, ndup, uid, dead>>
 
-\* ---- the device serves the oldest request; status may be an error (fault budget)
+\* ---- the device serves the oldest request; status may be any error byte (fault budget)
 Dev(st) ==
     /\ up # <<>>
     /\ st # 0 => nerr < NErr
@@ -94,22 +184,27 @@ Dev(st) ==
        /\ uid' = uid + 1
     /\ up' = Tail(up)
     /\ nerr' = IF st # 0 THEN nerr + 1 ELSE nerr
-    /\ UNCHANGED <<rd, wq, wkey, wlock, link, nreq, ndup, req, chunks, notes, sup, wireW, dead>>
+    /\ UNCHANGED <<rd, rpend, wq, wkey, wlock, dk, dkcb, link, nreq, ndup, req, chunks, notes, sup, wireW, dead>>
 
 Dup(r) ==
     /\ r \in down /\ ndup < NDup
     /\ down' = down \cup {[r EXCEPT !.uid = uid + 1]}
     /\ uid' = uid + 1 /\ ndup' = ndup + 1
-    /\ UNCHANGED <<rd, wq, wkey, wlock, up, link, nreq, nerr, req, chunks, notes, sup, wireW, dead>>
+    /\ UNCHANGED <<rd, rpend, wq, wkey, wlock, dk, dkcb, up, link, nreq, nerr, req, chunks, notes, sup, wireW, dead>>
+
+Unknown(st) == Bug = "errnoLookup" /\ st \notin HostSts
 
 \* ---- dispatcher: _handle_chan_read
 DeliverR(r) ==
-    /\ r \in down /\ r.k = "r" /\ ~dead
+    /\ r \in down /\ r.k = "r" /\ ~dead /\ NoCb
     /\ down' = down \ {r}
     /\ LET c == rd[r.m] IN
        IF c = NoRd THEN UNCHANGED <<rd, up, chunks, notes>>
-       ELSE IF r.st # 0 THEN /\ rd' = [rd EXCEPT ![r.m] = NoRd]
-                              /\ Note(c.rid, "fail") /\ UNCHANGED <<up, chunks>>
+       ELSE IF r.st # 0
+       THEN IF Unknown(r.st)
+            THEN UNCHANGED <<rd, up, chunks, notes>>          \* raised before the pop, swallowed
+            ELSE /\ rd' = [rd EXCEPT ![r.m] = NoRd]
+                 /\ Note(c.rid, "fail") /\ UNCHANGED <<up, chunks>>
        ELSE IF r.addr # c.cur THEN UNCHANGED <<rd, up, chunks, notes>>
        ELSE LET c2 == [c EXCEPT !.cur = c.cur + r.len, !.left = IF c.left >= r.len THEN c.left - r.len ELSE 0] IN
             IF c.left > r.len
@@ -118,7 +213,7 @@ DeliverR(r) ==
                  /\ UNCHANGED notes
             ELSE /\ rd' = [rd EXCEPT ![r.m] = NoRd]
                  /\ Note(c.rid, "ok") /\ UNCHANGED <<up, chunks>>
-    /\ UNCHANGED <<wq, wkey, wlock, link, nreq, nerr, ndup, uid, req, sup, wireW, dead>>
+    /\ UNCHANGED <<rpend, wq, wkey, wlock, dk, dkcb, link, nreq, nerr, ndup, uid, req, sup, wireW, dead>>
 
 \* after popping the head: start the next queued write, if any
 PopAndStart(m) ==
@@ -129,42 +224,58 @@ PopAndStart(m) ==
          /\ up' = Append(up, msg) /\ Chunk(msg)
          /\ wireW' = [wireW EXCEPT ![m] = Append(@, w.rid)]
 
+\* DeckMemoryManager._write_done / _write_failed for the write it holds the callbacks of:
+\* copy, clear, call -- afterwards the callback (or anybody) may start the next write
+DkNote(m, rid, what) ==
+    IF m \in DeckMems /\ dk[m] = rid
+    THEN IF what = "fail" /\ Bug = "deckCallBeforeClear"
+         THEN dkcb' = [dkcb EXCEPT ![m] = TRUE] /\ UNCHANGED dk
+         ELSE dk' = [dk EXCEPT ![m] = 0] /\ UNCHANGED dkcb
+    ELSE UNCHANGED <<dk, dkcb>>
+
+\* (bug variant only) the failure callback returns without having started a write: late clear
+DeckCbReturn(m) ==
+    /\ dkcb[m]
+    /\ dk' = [dk EXCEPT ![m] = 0] /\ dkcb' = [dkcb EXCEPT ![m] = FALSE]
+    /\ UNCHANGED <<rd, rpend, wq, wkey, wlock, up, down, link, nreq, nerr, ndup, uid, req, chunks, notes, sup, wireW, dead>>
+
 \* ---- dispatcher: _handle_chan_write (lock taken and released inside, callbacks after release)
 DeliverW(r) ==
-    /\ r \in down /\ r.k = "w" /\ ~dead /\ wlock = "free"
+    /\ r \in down /\ r.k = "w" /\ ~dead /\ wlock = "free" /\ NoCb
     /\ down' = down \ {r}
-    /\ IF ~wkey[r.m] THEN UNCHANGED <<wq, up, chunks, notes, wireW, wlock, dead>>
+    /\ IF ~wkey[r.m] THEN UNCHANGED <<wq, up, chunks, notes, wireW, wlock, dead, dk, dkcb>>
        ELSE IF wq[r.m] = <<>>
        THEN IF Bug = "emptyQueueIndex"
             THEN /\ wlock' = "stuck" /\ dead' = TRUE        \* IndexError with the lock held
-                 /\ UNCHANGED <<wq, up, chunks, notes, wireW>>
-            ELSE UNCHANGED <<wq, up, chunks, notes, wireW, wlock, dead>>
+                 /\ UNCHANGED <<wq, up, chunks, notes, wireW, dk, dkcb>>
+            ELSE UNCHANGED <<wq, up, chunks, notes, wireW, wlock, dead, dk, dkcb>>
        ELSE LET w == wq[r.m][1] IN
             IF r.st # 0
-            THEN /\ PopAndStart(r.m) /\ Note(w.rid, "fail") /\ UNCHANGED <<wlock, dead>>
-            ELSE IF r.addr # w.cur THEN UNCHANGED <<wq, up, chunks, notes, wireW, wlock, dead>>
+            THEN IF Unknown(r.st)
+                 THEN /\ wlock' = "stuck"                   \* raised between acquire and release
+                      /\ UNCHANGED <<wq, up, chunks, notes, wireW, dead, dk, dkcb>>
+                 ELSE /\ PopAndStart(r.m) /\ Note(w.rid, "fail") /\ DkNote(r.m, w.rid, "fail")
+                      /\ UNCHANGED <<wlock, dead>>
+            ELSE IF r.addr # w.cur THEN UNCHANGED <<wq, up, chunks, notes, wireW, wlock, dead, dk, dkcb>>
             ELSE IF w.rest > 0
                  THEN LET w2 == [w EXCEPT !.cur = w.cur + w.add] msg == SendW(r.m, w2) IN
                       /\ wq' = [wq EXCEPT ![r.m] = <<Started(w2)>> \o Tail(wq[r.m])]
                       /\ up' = Append(up, msg) /\ Chunk(msg)
                       /\ wireW' = [wireW EXCEPT ![r.m] = Append(@, w.rid)]
-                      /\ UNCHANGED <<notes, wlock, dead>>
-                 ELSE /\ PopAndStart(r.m) /\ Note(w.rid, "ok") /\ UNCHANGED <<wlock, dead>>
-    /\ UNCHANGED <<rd, wkey, link, nreq, nerr, ndup, uid, req, sup>>
+                      /\ UNCHANGED <<notes, wlock, dead, dk, dkcb>>
+                 ELSE /\ PopAndStart(r.m) /\ Note(w.rid, "ok") /\ DkNote(r.m, w.rid, "ok")
+                      /\ UNCHANGED <<wlock, dead>>
+    /\ UNCHANGED <<rd, rpend, wkey, link, nreq, nerr, ndup, uid, req, sup>>
 
-\* ---- link drop: Memory._disconnected -> every pending request fails, state cleared
+\* ---- link drop reported by the driver's own thread: Memory._disconnected
 Drop ==
-    /\ link /\ wlock = "free"
-    /\ link' = FALSE
-    /\ LET pend == {rd[m].rid : m \in {x \in Mems : rd[x] # NoRd}}
-                   \cup UNION {{wq[m][i].rid : i \in DOMAIN wq[m]} : m \in Mems}
-       IN notes' = [i \in DOMAIN notes |-> IF i \in pend THEN Append(notes[i], "fail") ELSE notes[i]]
-    /\ rd' = [m \in Mems |-> NoRd] /\ wq' = [m \in Mems |-> <<>>] /\ wkey' = [m \in Mems |-> FALSE]
-    /\ up' = <<>> /\ down' = {}
-    /\ UNCHANGED <<wlock, nreq, nerr, ndup, uid, req, chunks, sup, wireW, dead>>
+    /\ link /\ wlock = "free" /\ NoCb
+    /\ TearDown(notes, {})
+    /\ rd' = [m \in Mems |-> NoRd]
+    /\ UNCHANGED <<rpend, wlock, nreq, nerr, ndup, uid, req, chunks, sup, wireW, dead>>
 
 Reconnect == /\ ~link /\ link' = TRUE
-             /\ UNCHANGED <<rd, wq, wkey, wlock, up, down, nreq, nerr, ndup, uid, req, chunks, notes, sup, wireW, dead>>
+             /\ UNCHANGED <<rd, rpend, wq, wkey, wlock, dk, dkcb, up, down, nreq, nerr, ndup, uid, req, chunks, notes, sup, wireW, dead>>
 
 \* the same actions addressed by the reply's uid (a constant range, so that TLC labels each step
 \* with its parameter in dumps and simulation files)
@@ -173,9 +284,11 @@ DupU(u) == \E r \in down : r.uid = u /\ Dup(r)
 DeliverRU(u) == \E r \in down : r.uid = u /\ DeliverR(r)
 DeliverWU(u) == \E r \in down : r.uid = u /\ DeliverW(r)
 
-Next == \/ \E m \in Mems, a \in Addrs, n \in 0..MaxLen : URead(m, a, n)
-        \/ \E m \in Mems, a \in Addrs, n \in 0..MaxLen, f \in BOOLEAN : UWrite(m, a, n, f)
-        \/ \E st \in {0, 1} : Dev(st)
+Next == \/ \E m \in Mems, a \in Addrs, n \in 0..MaxLen, sf \in SFs : URead(m, a, n, sf)
+        \/ \E m \in Mems, a \in Addrs, n \in 0..MaxLen, f \in BOOLEAN, sf \in SFs : UWrite(m, a, n, f, sf)
+        \/ \E m \in Mems : URegister(m)
+        \/ \E m \in Mems : DeckCbReturn(m)
+        \/ \E st \in {0} \cup ErrSts : Dev(st)
         \/ \E u \in UIds : DupU(u)
         \/ \E u \in UIds : DeliverRU(u)
         \/ \E u \in UIds : DeliverWU(u)
@@ -194,10 +307,12 @@ Tiling == ndup = 0 => \A i \in Rids : /\ P!TilesPrefix(chunks[i], req[i].addr, r
                           /\ (notes[i] = <<"ok">> => P!Tiles(chunks[i], req[i].addr, req[i].len))
 \* queued writes to one memory are performed in order
 WriteOrder == \A m \in Mems : \A i, j \in DOMAIN wireW[m] : i < j => wireW[m][i] <= wireW[m][j]
-\* nothing in flight => nothing pending, nothing wedged: every accepted, not superseded request completed
-Quiescent == up = <<>> /\ down = {}
+\* nothing in flight (no message, no API call or callback half-way) => nothing pending, nothing
+\* wedged: every accepted, not superseded request completed and no record of it is left -- neither
+\* in Memory nor in the deck manager
+Quiescent == up = <<>> /\ down = {} /\ NoCall /\ NoCb
 Complete == Quiescent =>
-    /\ \A m \in Mems : rd[m] = NoRd /\ wq[m] = <<>>
+    /\ \A m \in Mems : rd[m] = NoRd /\ wq[m] = <<>> /\ dk[m] = 0
     /\ \A i \in Rids : (req[i].accepted /\ i \notin sup) => Len(notes[i]) = 1
 UidBound == uid <= MaxUid
 NotWedged == wlock = "free" /\ ~dead
